@@ -6,7 +6,7 @@
 
   OBLIGATIONS (checked by the harness: `#print axioms` of each):
     sanitize_total stripentities_total sanitize_css_total
-    only_safe_elems_attrs no_comments
+    only_safe_elems_attrs no_comments no_cdata_markers no_gt_in_declarations
     wellnested_in_out end_tags_safe dropped_subtree_absent
     uri_attrs_checked uri_attrs_safe scheme_punct_rejected
     css_comments_dotall css_expression_classes_cover css_decode_fixed css_no_expression
@@ -14,6 +14,8 @@
     attr_value_roundtrip uri_attrs_scheme_serialised default_config_script_free
     html_reparse_safe_partial xhtml_reparse_safe_partial default_config_markup_ok css_pass_order_matters
     attr_values_decode_stable html_reparse_events_safe_partial redecode_witness
+    css_ok css_no_negative_margin password_inputs_dropped no_password_input password_rule_reference_witness
+    html_reparse_prolog_safe_partial
 -/
 import Genshi.Lemmas.SanNest
 import Genshi.Lemmas.SanTree
@@ -23,6 +25,8 @@ import Genshi.Lemmas.SanCssUrl
 import Genshi.Lemmas.SanRoundtrip
 import Genshi.Lemmas.SanReparse
 import Genshi.Lemmas.SanLayer
+import Genshi.Lemmas.SanRules
+import Genshi.Lemmas.SanReparseProlog
 import Genshi.Props.C08
 namespace Genshi.Props.C06
 open Genshi Genshi.San Genshi.San.Spec
@@ -76,6 +80,49 @@ theorem no_comments {cfg : Cfg} {s o : Stream} (h : sanitize cfg s = .ok o) (c :
   obtain ⟨st1, e, _, hem⟩ := sanitizeFrom_mem h _ hm
   cases hem with
   | other hw hns hnc => exact hnc c rfl
+
+/-- No CDATA section marker survives — for all input streams, balanced or not (finding
+    C06-cdata-markers, repaired: the text between the markers of the input is therefore ordinary
+    TEXT in the output, which every serializer escapes; before the repair the XML and XHTML
+    serializers wrote it verbatim and `]]><script>…` — or an unclosed section — re-parsed as a
+    live element). -/
+theorem no_cdata_markers {cfg : Cfg} {s o : Stream} (h : sanitize cfg s = .ok o) :
+    Event.startCdata ∉ o ∧ Event.endCdata ∉ o := by
+  refine ⟨?_, ?_⟩ <;> intro hm <;> obtain ⟨st1, e, _, hem⟩ := sanitizeFrom_mem h _ hm <;> cases hem with
+  | other hw hns hnc hsc hec => first | exact hsc rfl | exact hec rfl
+
+/-- **Every declaration-like event that survives is closed where it says**: no processing
+    instruction and no DOCTYPE declaration of the output holds a `>` (in target or data; in name,
+    public or system identifier).  An HTML parser ends both at the first `>`, quoted or not, and
+    reads the rest as markup (findings C06-pi-markup and C06-doctype-markup, repaired) — for all
+    input streams. -/
+theorem no_gt_in_declarations {cfg : Cfg} {s o : Stream} (h : sanitize cfg s = .ok o) :
+    (∀ t d, Event.pi t d ∈ o → '>' ∉ t ∧ '>' ∉ d) ∧
+    (∀ n p q, Event.doctype n p q ∈ o → dtHasGt n p q = false) := by
+  refine ⟨?_, ?_⟩
+  · intro t d hm
+    obtain ⟨st1, e, _, hem⟩ := sanitizeFrom_mem h _ hm
+    cases hem with
+    | other hw hns hnc hsc hec hdt hpi =>
+      have := hpi t d rfl
+      simp only [Bool.or_eq_false_iff] at this
+      exact ⟨by simpa using this.1, by simpa using this.2⟩
+  · intro n p q hm
+    obtain ⟨st1, e, _, hem⟩ := sanitizeFrom_mem h _ hm
+    cases hem with
+    | other hw hns hnc hsc hec hdt hpi => exact hdt n p q rfl
+
+-- non-vacuity: the system identifier `x'><s>` (legal XML inside double quotes) and a PI with `>`
+-- are dropped; a harmless DOCTYPE and PI pass
+example : sanitize Cfg.default [.doctype ['h', 't', 'm', 'l'] none (some ['x', '\'', '>', '<', 's', '>']),
+    .pi ['x'] ['a', '>'], .doctype ['h', 't', 'm', 'l'] (some ['-', '/', '/', 'W']) (some ['x', '.', 'd', 't', 'd']),
+    .pi ['p', 'h', 'p'] ['e', 'c', 'h', 'o']] =
+    .ok [.doctype ['h', 't', 'm', 'l'] (some ['-', '/', '/', 'W']) (some ['x', '.', 'd', 't', 'd']),
+      .pi ['p', 'h', 'p'] ['e', 'c', 'h', 'o']] := by decide +kernel
+
+-- non-vacuity: a section (closed, then unclosed) around hostile text; the text stays, as plain TEXT
+example : sanitize Cfg.default [.startCdata, .text [']', ']', '>', '<', 's', '>'] false, .endCdata, .startCdata,
+    .text ['x'] false] = .ok [.text [']', ']', '>', '<', 's', '>'] false, .text ['x'] false] := by decide +kernel
 
 /-! ## Nesting and dropped subtrees -/
 
@@ -318,6 +365,43 @@ theorem css_urls_safe {cfg : Cfg} (hcfg : CssNamesPlain cfg) {s o : Stream} (h :
   rw [hj] at harg
   exact sanitizeCss_urls_safe css_comments_dotall hcfg hd arg harg sch hb
 
+/-- **The whole emitted style value is acceptable to the browser-side reader** — the single
+    statement of the spec half: `cssOk schemes v` = after decoding (escapes, comments, to a fixed
+    point) `v` holds no `expression(` in any spelling, and every `url(` argument has no scheme or
+    one of `schemes`.  It is the predicate the oracle applies to the real output (`css_problems`
+    of the harness, compared with `cssOk` on every run: stream `spec-cssok`). -/
+theorem css_ok {cfg : Cfg} (hcfg : CssNamesPlain cfg) {s o : Stream} (h : sanitize cfg s = .ok o)
+    {tag : QName} {attrs : AttrList} (hm : Event.start tag attrs ∈ o)
+    {a : QName × Str} (ha : a ∈ attrs) (hs : a.1.text = styleWord) (hu : styleWord ∉ cfg.uriAttrs) :
+    cssOk cfg.safeSchemes a.2 = true := by
+  unfold cssOk
+  simp only [Bool.and_eq_true, Bool.not_eq_true', List.all_eq_true]
+  refine ⟨css_no_expression hcfg h hm ha hs hu, ?_⟩
+  intro arg harg
+  unfold schemeOk
+  cases hb : browserScheme (trimArg arg) with
+  | none => rfl
+  | some sch =>
+    have := css_urls_safe hcfg h hm ha hs hu harg hb
+    simpa using this
+
+/-- **No negative margins, only whitelisted properties**: the emitted style value is the
+    `'; '`-joined list of declarations `name:value` each of which has a property name (stripped,
+    lower-cased) of `safe_css`, and none of which is a `margin…` property with a `-` in its value
+    (`is_safe_css`: "negative margins can be used for phishing").  With `css_decode_fixed` the
+    text that was checked is the text the browser reads. -/
+theorem css_no_negative_margin {cfg : Cfg} {s o : Stream} (h : sanitize cfg s = .ok o)
+    {tag : QName} {attrs : AttrList} (hm : Event.start tag attrs ∈ o)
+    {a : QName × Str} (ha : a ∈ attrs) (hs : a.1.text = styleWord) (hu : styleWord ∉ cfg.uriAttrs) :
+    ∃ decls, a.2 = Genshi.Str.join declSep decls ∧ ∀ d ∈ decls, ∃ pn value,
+      split1 ':' d = (pn, some value) ∧ pyLower (pyStrip pn) ∈ cfg.safeCss ∧
+      ¬ (marginWord.isPrefixOf (pyLower (pyStrip pn)) = true ∧ '-' ∈ pyStrip value) := by
+  obtain ⟨x, decls, hd, hj⟩ := style_attr_emitted h hm ha hs hu
+  refine ⟨decls, hj, ?_⟩
+  intro d hdm
+  obtain ⟨pn, value, hsp, hsafe⟩ := sanitizeCss_isSafeCss hd d hdm
+  exact ⟨pn, value, hsp, isSafeCss_true hsafe⟩
+
 /-- a configuration that allows `style` attributes -/
 def styleCfg : Cfg := { Cfg.default with safeAttrs := styleWord :: Cfg.default.safeAttrs }
 def styleName : QName := ⟨[], styleWord⟩
@@ -347,6 +431,86 @@ example : sanitizeCss styleCfg ['t', 'o', 'p', ':', '\\', '5', 'c', ' ', '7', '5
     .ok [['t', 'o', 'p', ':', '\\', '\\', '7', '5', ' ', 'r', 'l', '(', 'x', ')']] ∧
     cssDecode ['t', 'o', 'p', ':', '\\', '\\', '7', '5', ' ', 'r', 'l', '(', 'x', ')'] =
       ['t', 'o', 'p', ':', '\\', '\\', '7', '5', ' ', 'r', 'l', '(', 'x', ')'] := by decide +kernel
+
+-- non-vacuity of `css_ok` / `css_no_negative_margin`: a style attribute with a negative margin,
+-- an unlisted property and two harmless declarations; the last two are emitted and are `cssOk`
+example : sanitize styleCfg [.start divTag [(styleName,
+      ['m', 'a', 'r', 'g', 'i', 'n', '-', 'l', 'e', 'f', 't', ':', '-', '9', 'p', 'x', ';', 'p', 'o', 's', 'i', 't', 'i', 'o',
+       'n', ':', 'f', 'i', 'x', 'e', 'd', ';', 'M', 'a', 'r', 'g', 'i', 'n', ':', '1', 'p', 'x', ';', 'c', 'o', 'l', 'o', 'r',
+       ':', 'u', 'r', 'l', '(', 'h', 't', 't', 'p', ':', 'x', ')'])], .end_ divTag] =
+    .ok [.start divTag [(styleName, ['M', 'a', 'r', 'g', 'i', 'n', ':', '1', 'p', 'x', ';', ' ', 'c', 'o', 'l', 'o', 'r', ':',
+       'u', 'r', 'l', '(', 'h', 't', 't', 'p', ':', 'x', ')'])], .end_ divTag] ∧
+    cssOk styleCfg.safeSchemes ['M', 'a', 'r', 'g', 'i', 'n', ':', '1', 'p', 'x', ';', ' ', 'c', 'o', 'l', 'o', 'r', ':',
+       'u', 'r', 'l', '(', 'h', 't', 't', 'p', ':', 'x', ')'] = true ∧
+    cssOk styleCfg.safeSchemes ['c', 'o', 'l', 'o', 'r', ':', 'u', 'r', 'l', '(', 'j', 's', ':', 'x', ')'] = false := by
+  decide +kernel
+
+/-! ## The password rule of `is_safe_elem`
+
+  "Password fields can be used for phishing": an `input` element (by `QName.localname`) whose
+  `type` attribute, lower-cased, is `password` is treated like an element outside the safe set.
+  The code looks at the `type` value of the INPUT event, before the attribute loop decodes
+  character references in it; so the statement about the output alone needs the hypothesis that
+  the `type` values of the input hold no reference (true of what html.parser + genshi's HTML
+  parser deliver except for triple-encoded references, see `password_rule_reference_witness`). -/
+
+/-- Every emitted START event stems from an input START event of the same tag whose attributes
+    were filtered and which was no password field: `localname = input ∧ lower(type) = password`
+    is false of the input element — for all streams. -/
+theorem password_inputs_dropped {cfg : Cfg} {s o : Stream} (h : sanitize cfg s = .ok o)
+    {tag : QName} {attrs : AttrList} (hm : Event.start tag attrs ∈ o) :
+    ∃ attrs0, Event.start tag attrs0 ∈ s ∧ sanAttrs cfg attrs0 = .ok attrs ∧
+      ¬ (localname tag = inputWord ∧ pyLower (attrGet attrs0 typeWord) = passwordWord) := by
+  obtain ⟨st1, e, hes, hem⟩ := sanitizeFrom_mem h _ hm
+  cases hem with
+  | start tag' attrs0 as he hw hsafe has =>
+    subst he
+    refine ⟨attrs0, hes, has, ?_⟩
+    rintro ⟨hl, ht⟩
+    unfold isSafeElem at hsafe
+    simp [hl, ht] at hsafe
+  | other hw hns hnc => exact absurd rfl (hns tag attrs)
+
+/-- **The output never contains a password field**: no emitted `input` element has a `type`
+    attribute that is `password` in any letter case — when the `type` values of the input stream
+    hold no character reference and `type` is not configured as a URI attribute. -/
+theorem no_password_input {cfg : Cfg} (hu : typeWord ∉ cfg.uriAttrs) {s o : Stream}
+    (hplain : ∀ t as, Event.start t as ∈ s → ∀ a ∈ as, a.1.text = typeWord → stripentities a.2 = .ok a.2)
+    (h : sanitize cfg s = .ok o) {tag : QName} {attrs : AttrList} (hm : Event.start tag attrs ∈ o)
+    (hl : localname tag = inputWord) : pyLower (attrGet attrs typeWord) ≠ passwordWord := by
+  obtain ⟨attrs0, hin, has, hno⟩ := password_inputs_dropped h hm
+  have hu' : cfg.uriAttrs.contains typeWord = false := by
+    cases hc : cfg.uriAttrs.contains typeWord with
+    | false => rfl
+    | true => exact absurd (by simpa using hc) hu
+  rw [sanAttrs_attrGet_type hu' attrs0 attrs (hplain tag attrs0 hin) has]
+  by_cases hs : cfg.safeAttrs.contains typeWord = true
+  · rw [if_pos hs]; exact fun ht => hno ⟨hl, ht⟩
+  · rw [if_neg hs]; exact pyLower_nil_ne_password
+
+def inputTag : QName := ⟨[], inputWord⟩
+def typeName : QName := ⟨[], typeWord⟩
+
+/-- The hypothesis of `no_password_input` is needed (observation, outside the property text): the
+    rule reads the undecoded value, the attribute loop then decodes it — `type="pass&#119;ord"`
+    in the event stream is emitted as `type="password"`. -/
+theorem password_rule_reference_witness :
+    sanitize Cfg.default [.start inputTag [(typeName, ['p', 'a', 's', 's', '&', '#', '1', '1', '9', ';', 'o', 'r', 'd'])],
+      .end_ inputTag] = .ok [.start inputTag [(typeName, passwordWord)], .end_ inputTag] := by
+  decide +kernel
+
+-- non-vacuity: a password field (mixed case) is dropped with its content, also under a name in
+-- the EMPTY namespace (`QName('}input')`: string value `{}input`, local name `input`) when the
+-- configuration lists that name; a text field is kept
+example : sanitize Cfg.default [.start inputTag [(typeName, ['P', 'a', 's', 's', 'W', 'o', 'r', 'd'])],
+    .text ['x'] false, .end_ inputTag, .start inputTag [(typeName, ['t', 'e', 'x', 't'])], .end_ inputTag] =
+    .ok [.start inputTag [(typeName, ['t', 'e', 'x', 't'])], .end_ inputTag] := by decide +kernel
+example : localname ⟨[], ['{', '}', 'i', 'n', 'p', 'u', 't']⟩ = inputWord ∧
+    localname ⟨['u'], inputWord⟩ = inputWord ∧ localname ⟨[], ['{', 'i', 'n', 'p', 'u', 't']⟩ = inputWord ∧
+    (⟨[], ['{', '}', 'i', 'n', 'p', 'u', 't']⟩ : QName).text = ['{', '}', 'i', 'n', 'p', 'u', 't'] := by decide
+example : sanitize { Cfg.default with safeTags := ['{', '}', 'i', 'n', 'p', 'u', 't'] :: Cfg.default.safeTags }
+    [.start ⟨[], ['{', '}', 'i', 'n', 'p', 'u', 't']⟩ [(typeName, passwordWord)], .text ['x'] false,
+     .end_ ⟨[], ['{', '}', 'i', 'n', 'p', 'u', 't']⟩] = .ok [] := by decide +kernel
 
 /-! ## After serialisation (attribute values)
 
@@ -418,8 +582,10 @@ theorem default_config_script_free :
   unsafe `url(`, and no comment, processing instruction or DOCTYPE at all.
 
   `_partial`: the hypotheses are those of C08's tree round trips — `strip_whitespace=False`, no
-  doctype option, input leaves are plain (non-Markup) text or comments (`plainForest`; PIs, DOCTYPE,
-  CDATA and namespace events are not covered), and the names of the configuration can be written as
+  doctype option, input leaves are plain (non-Markup) text, comments, the markers of CDATA sections
+  in any arrangement and processing instructions that hold a `>` (`plainForest`: everything the
+  repaired filter drops, and text; PIs that are kept, DOCTYPE, XML declarations and namespace
+  events are not covered: C08's tree round trips have no such leaves), and the names of the configuration can be written as
   markup (`CfgMarkupOk`, true of the default sets: `default_config_markup_ok`); for XHTML
   additionally no LF/TAB/CR in the emitted attribute values (finding C08-attr-ws). -/
 
@@ -525,6 +691,86 @@ example : (do
     let txt ← Genshi.Output.render .html { strip := false, cache := true, doctype := none, dropXmlDecl := true } o
     Genshi.Reader.tokens false txt) =
     some [.start ['d', 'i', 'v'] [] false, .text ['a', '<', 'b'], .end_ ['d', 'i', 'v']] := by decide +kernel
+
+-- non-vacuity: CDATA markers (closed around `]]><s>`, then unclosed) and a PI holding `>` are
+-- inside `plainForest`; the text of the section is read back as text, not as markup
+example : plainForest [.leaf .startCdata, .leaf (.text [']', ']', '>', '<', 's', '>'] false), .leaf .endCdata,
+    .elem divTag [] [.leaf .startCdata, .leaf (.pi ['x'] ['a', '>', '<', 's'])]] = true := by decide
+example : (do
+    let o ← (sanitize Cfg.default [.start divTag [], .startCdata, .text [']', ']', '>', '<', 's', '>'] false, .endCdata,
+      .pi ['x'] ['a', '>', '<', 's'], .startCdata, .end_ divTag]).toOption
+    let txt ← Genshi.Output.render .xhtml { strip := false, cache := true, doctype := none, dropXmlDecl := true } o
+    Genshi.Reader.tokens true txt) =
+    some [.start ['d', 'i', 'v'] [] false, .text [']', ']', '>', '<', 's', '>'], .end_ ['d', 'i', 'v']] := by decide +kernel
+
+/-! ### beyond C08's tree hypotheses: processing instructions and DOCTYPE declarations (HTML)
+
+  C08's tree round trips know no PI / DOCTYPE leaves; its events-level theorem
+  `html_roundtrip_prolog_partial` does, under two hypotheses: no `>` inside a PI (`piSafe`) and a
+  DOCTYPE literal that the html-mode reader reads back whole (`HtmlOkP` for DOCTYPE events).  The
+  first is **established by the repaired filter** (a PI holding `>` is dropped: C06-pi-markup);
+  the second is asked of the DOCTYPE leaves that the filter keeps (`DtOkForest`, stated through
+  C08's own predicate; the filter guarantees that no kept DOCTYPE holds a `>`, which is what
+  html.parser needs — C06-doctype-markup).  `TokSafeP` is `TokSafe` except that PI and DOCTYPE
+  tokens may occur (the property forbids comments, not these).  `_partial`: HTML method only,
+  `strip_whitespace=False`, no doctype option, no XML declaration / namespace leaves. -/
+
+theorem html_reparse_prolog_safe_partial {cfg : Cfg} (hm : CfgMarkupOk cfg) (hcss : CssNamesPlain cfg)
+    (cache dropd : Bool) (ns : List Node) (hok : okList ns = true) (hpl : prologForest ns = true)
+    (hdt : DtOkForest ns) :
+    ∃ p toks, sanitize cfg (flattenList ns) = .ok (flattenList p) ∧
+      (Genshi.Output.render .html { strip := false, cache := cache, doctype := none, dropXmlDecl := dropd }
+          (flattenList p)).bind (Genshi.Reader.tokens false) = some toks ∧
+      ∀ t ∈ toks, TokSafeP cfg t := by
+  obtain ⟨p, hp⟩ : ∃ p, pruneList cfg ns = .ok p := by
+    have h1 := keep_list cfg ns [] hok
+    obtain ⟨o, ho⟩ := sanitizeFrom_ok cfg St.init (flattenList ns ++ [])
+    cases hp : pruneList cfg ns with
+    | ok p => exact ⟨p, rfl⟩
+    | error e => rw [h1, hp] at ho; cases ho
+  have hgood := pruneList_goodP cfg ns p hpl hdt hp
+  obtain ⟨⟨h1, h2⟩, h3⟩ := forestF_good hm p hgood
+  obtain ⟨hokP, hraw⟩ := okAllP_of_good hm (Genshi.Output.forestF p) h3 false
+  refine ⟨p, Genshi.Reader.htmlExpectedP (Genshi.Output.forestF p), ?_, ?_,
+    htmlExpectedP_safe css_comments_dotall hm hcss _ h3⟩
+  · have := keep_list cfg ns [] hok
+    simp only [List.append_nil] at this
+    unfold sanitize
+    rw [this, hp]
+    simp [sanitizeFrom]
+  · have hc : Genshi.Output.render .html { strip := false, cache := cache, doctype := none, dropXmlDecl := dropd } (flattenList p) =
+        Genshi.Output.render .html { strip := false, cache := false, doctype := none, dropXmlDecl := dropd } (flattenList p) := by
+      cases cache
+      · rfl
+      · exact Genshi.Props.C08.render_cache_irrelevant' .html false none dropd (flattenList p)
+    rw [hc]
+    have hf := Genshi.Output.filtered_forest .html false dropd p h1 h2
+    simp only [Genshi.Output.render, Genshi.Output.chunks, hf, Option.map_some, Option.bind_some]
+    refine Genshi.Props.C08.html_roundtrip_prolog_partial _ _ _ hokP ?_
+    have := (Genshi.Reader.html_streamP ({} : Genshi.Output.Opts) (Genshi.Output.forestF p) {} false {} rfl rfl hokP).2
+    rw [this]; exact hraw
+
+-- non-vacuity: a DOCTYPE, a kept PI, a DOCTYPE holding `>` (dropped) and a PI holding `>` (dropped)
+example : prologForest [.leaf (.doctype ['h', 't', 'm', 'l'] none (some ['x', '.', 'd', 't', 'd'])),
+    .elem divTag [] [.leaf (.pi ['p', 'h', 'p'] ['e', 'c', 'h', 'o']), .leaf (.text ['a', '<'] false),
+      .leaf (.pi ['x'] ['a', '>', '<', 's'])],
+    .leaf (.doctype ['h', 't', 'm', 'l'] none (some ['x', '\'', '>', '<', 's', '>']))] = true ∧
+  DtOkForest [.leaf (.doctype ['h', 't', 'm', 'l'] none (some ['x', '.', 'd', 't', 'd'])),
+    .elem divTag [] [.leaf (.pi ['p', 'h', 'p'] ['e', 'c', 'h', 'o'])],
+    .leaf (.doctype ['h', 't', 'm', 'l'] none (some ['x', '\'', '>', '<', 's', '>']))] := by
+  refine ⟨by decide, ?_, ?_, ?_, trivial⟩
+  · intro _ hd; exact ⟨rfl, fun _ => by decide⟩
+  · simp [DtOkTree, DtOkForest]
+  · intro h; exact absurd h (by decide)
+example : (do
+    let o ← (sanitize Cfg.default [.doctype ['h', 't', 'm', 'l'] none (some ['x', '.', 'd', 't', 'd']), .start divTag [],
+      .pi ['p', 'h', 'p'] ['e', 'c', 'h', 'o'], .text ['a', '<'] false, .pi ['x'] ['a', '>', '<', 's'], .end_ divTag,
+      .doctype ['h', 't', 'm', 'l'] none (some ['x', '\'', '>', '<', 's', '>'])]).toOption
+    let txt ← Genshi.Output.render .html { strip := false, cache := true, doctype := none, dropXmlDecl := true } o
+    Genshi.Reader.tokens false txt) =
+    some [.doctype ['h', 't', 'm', 'l', ' ', 'S', 'Y', 'S', 'T', 'E', 'M', ' ', '"', 'x', '.', 'd', 't', 'd', '"'], .text ['\n'],
+      .start ['d', 'i', 'v'] [] false, .pi ['p', 'h', 'p', ' ', 'e', 'c', 'h', 'o', '?'], .text ['a', '<'], .end_ ['d', 'i', 'v']] := by
+  decide +kernel
 
 /-! ## The order of the two CSS passes
 
